@@ -817,6 +817,14 @@ fn c07_cases(seed: u64, n: usize) -> Vec<Config> {
             c.min = 200;
             c.max = 500;
         }
+        // a few very long pickles: more than 256 memo entries (where an unsorted or truncated
+        // key list would show) - PRNG mode, since 4 KiB of fuzzer bytes run dry long before
+        if i % 20 == 7 {
+            c.min = 3500 + (i % 7) * 200;
+            c.max = c.min + 400;
+            c.entropy = Entropy::Seed(mix(seed, i as u64));
+            c.unsafe_mut = false;
+        }
         v.push(c);
     }
     v
@@ -855,6 +863,9 @@ pub fn c07(thorough: bool, seed: u64) -> CheckOutput {
         if a.max_memo >= 2 && a.gets >= 1 {
             memo_rich += 1;
             acc.ins_nontrivial(h);
+        }
+        if a.max_memo > 256 {
+            acc.count("cases_with_more_than_256_memo_entries", 1);
         }
         if acc.samples.len() < 3 && a.max_memo >= 2 && a.gets >= 1 {
             acc.sample(sample_of(c, &reference[i], &a.op_names()));
@@ -1067,6 +1078,9 @@ pub fn c07(thorough: bool, seed: u64) -> CheckOutput {
         let _ = std::fs::remove_dir_all(&tmp);
     } else {
         acc.count("cli_batch_skipped_no_PFV_CLI", 1);
+    }
+    if acc.get("cases_with_more_than_256_memo_entries") < 3 {
+        acc.inconclusive.push("too few cases with more than 256 memo entries".into());
     }
     if memo_rich < 20 {
         acc.inconclusive.push("too few memo-rich cases (>=2 memo keys then GET)".into());
